@@ -75,10 +75,15 @@ func known(run *common.Run, drv *common.Driver) {
 				detail = fmt.Sprintf("GOMAXPROCS=%d %s attempt %d: interpreter %q, compiled %q", P, kr.Sched, a+1, trunc(got, 300), trunc(want, 300))
 			}
 		}
-		if kr.Model != "" && f.Status == "finding" {
+		if kr.Model != "" {
+			// a listed finding: the model must exhibit the cross-talk; a fixed one: it must not any more
+			want := "1"
+			if f.Status != "finding" {
+				want = "0"
+			}
 			ans, err := drv.Ask("C08 xtalk " + kr.Model)
-			if err != nil || common.Fields(ans)["x"] != "1" {
-				run.Errorf("finding %s: the model does not exhibit the cross-talk on the replay's model program: %s %v", f.ID, ans, err)
+			if err != nil || common.Fields(ans)["x"] != want {
+				run.Errorf("finding %s (%s): the model's answer on the replay's model program is not x=%s: %s %v", f.ID, f.Status, want, ans, err)
 			} else {
 				detail += " | model: " + ans
 			}
